@@ -71,7 +71,8 @@ CLAIMED = {
         "name and type; for any container satisfying the invariant (distinct legal names that are not ids of members, distinct "
         "ids) c[i], c[i-len], c[name], c[id] designate the same member and out-of-range indices raise IndexError; new members are "
         "appended last and deletion keeps the order. Tie: histories with probes of all access paths after random steps, names "
-        "incl. id-looking ones; trace predicate on the implementation's probes, id uniqueness and UUID well-formedness.",
+        "incl. id-looking ones; trace predicate on the implementation's probes, id uniqueness and UUID well-formedness; "
+        "caller-supplied ids (oid=) of 13 well- and ill-formed texts on the three calls that take one (test level).",
         "Trusted: see evidence.trusted_base; LinkContainer access paths are tied by correspondence only (no theorem yet).",
         "DESIGN.md section 5 C03", TECH),
     "C04": (
